@@ -98,3 +98,77 @@ func H_C08_sched_undefined() {
 	verifAssert(mat[0][1] == 0.25 && mat[1][0] == 0.25 && mat[1][2] == 0.75 && mat[2][1] == 0.75, "defined entries unchanged")
 	verifAssert(mat[0][2] == 1.5 && mat[2][0] == 1.5, "undefined entry replaced by twice the largest defined distance, whatever the schedule")
 }
+
+// vfWideStub is vfStubModel for any number of rows: the distance of (i,j) is (i+j)/64 and the
+// failAt-th evaluation (counted per model, so per DistMatrix call: evaluations of one worker
+// are sequential, and the harness uses it with the default schedule) fails, as do all later ones
+// when sticky is set.
+type vfWideStub struct {
+	failPairI, failPairJ int
+	sticky               bool
+}
+
+func (m *vfWideStub) InitModel(al align.Alignment, weights []float64, gamma bool, alpha float64) error {
+	return nil
+}
+func (m *vfWideStub) Sequence(i int) ([]uint8, error) { return []uint8{uint8(i)}, nil }
+func (m *vfWideStub) Distance(s1, s2 []uint8, w []float64) (float64, error) {
+	i, j := int(s1[0]), int(s2[0])
+	if i > j {
+		i, j = j, i
+	}
+	if (i == m.failPairI && j == m.failPairJ) || (m.sticky && (i > m.failPairI || (i == m.failPairI && j >= m.failPairJ))) {
+		return 0, errors.New("model evaluation failed")
+	}
+	return float64(i+j) / 64, nil
+}
+
+func vfManyRows(n int) align.Alignment {
+	al := align.NewAlign(align.NUCLEOTIDS)
+	for i := 0; i < n; i++ {
+		al.AddSequence(string([]byte{'a' + byte(i)}), "A", "")
+	}
+	return al
+}
+
+// H_C08_error_returns_backlog: a failing evaluation while more pairs are pending than the pair channel can buffer (capacity 100): the call still returns, with the error, and no goroutine is left blocked.
+// bounds: 15 one-column rows (105 pairs), cpus in {1,2}, the failing pair is the first, the second or the last one, failing once or from then on; default schedule (current thread runs until it blocks, then lowest id), deadlock detection on
+// outside: other schedules for this size (explored for 3 pairs in H_C08_sched_error_returns), more rows
+//verif: race=1
+func H_C08_error_returns_backlog() {
+	cpus := nondetRange(1, 2)
+	which := nondetRange(0, 2)
+	sticky := nondetBool()
+	m := &vfWideStub{sticky: sticky}
+	switch which {
+	case 0:
+		m.failPairI, m.failPairJ = 0, 1
+	case 1:
+		m.failPairI, m.failPairJ = 0, 2
+	default:
+		m.failPairI, m.failPairJ = 13, 14
+	}
+	_, err := DistMatrix(vfManyRows(15), nil, m, -1, -1, -1, -1, false, 0, cpus)
+	verifReach("returned")
+	verifAssert(err != nil, "the error of the failing evaluation is returned")
+}
+
+// H_C08_backlog_matrix: more pairs than the pair channel buffers, no failure: the matrix of the stub comes back.
+// bounds: 15 one-column rows (105 pairs), cpus in {1,2,3}, default schedule
+//verif: race=1
+func H_C08_backlog_matrix() {
+	cpus := nondetRange(1, 3)
+	m := &vfWideStub{failPairI: -1, failPairJ: -1}
+	mat, err := DistMatrix(vfManyRows(15), nil, m, -1, -1, -1, -1, false, 0, cpus)
+	verifReach("returned")
+	verifAssert(err == nil, "no error")
+	for i := 0; i < 15; i++ {
+		for j := 0; j < 15; j++ {
+			if i == j {
+				verifAssert(mat[i][j] == 0, "zero diagonal")
+			} else {
+				verifAssert(mat[i][j] == float64(i+j)/64, "entry is the model's distance")
+			}
+		}
+	}
+}
